@@ -64,19 +64,20 @@ MirrorIdx(n, on, i) == IF on THEN 2 * n - i ELSE 2 * n - 1 - i
 HasPartner(n, on, i) == MirrorIdx(n, on, i) \in 0..(2 * n - 1) /\ MirrorIdx(n, on, i) # i
 
 \* Source of full sample i: <<kept index, sign>>.  Upper half: itself.  Lower half: its mirror partner in
-\* the kept half times the parity; the outermost on-plane sample (i = 0, partner outside the kept half)
-\* repeats its neighbour i = 1 (documented fill).
-RECURSIVE Src(_, _, _, _)
+\* the kept half times the parity.  The outermost on-plane sample (i = 0) has its partner (kept index n) one
+\* past the kept half: it takes the parity-mirrored OUTERMOST KEPT sample n-1 instead.  For n >= 2 that is
+\* the documented "repeats its neighbour" (full sample 1 has the same source); for n = 1 the only kept
+\* sample is the plane sample itself.
 Src(n, on, par, i) ==
     IF i >= n THEN << i - n, 1 >>
-    ELSE IF on /\ i = 0 THEN Src(n, on, par, 1)
+    ELSE IF on /\ i = 0 THEN << n - 1, par >>
     ELSE << MirrorIdx(n, on, i) - n, par >>
 
 \* Implementation-shaped construction of the low block from the kept samples x (function 0..n-1 -> Int),
 \* as mirror_extend_low_side builds it.  Variant selects deliberately wrong constructions (negative instances).
 LowBlock(x, n, par, on, variant) ==
     IF ~on \/ variant = "plain_flip_on_plane" THEN [ j \in 0..(n - 1) |-> par * x[n - 1 - j] ]
-    ELSE IF n = 1 THEN [ j \in 0..0 |-> x[0] ]                      \* only neighbour is the plane sample itself
+    ELSE IF n = 1 THEN [ j \in 0..0 |-> par * x[0] ]                \* only the plane sample exists: mirrored like the outermost one
     ELSE LET m == [ j \in 0..(n - 2) |-> par * x[n - 1 - j] ]       \* parity * flip(x[1:])
          IN  [ j \in 0..(n - 1) |-> IF j = 0 THEN m[0] ELSE m[j - 1] ]
 
